@@ -17,7 +17,15 @@ def client(rng, tags, cid, nsub, nplain_before, nplain_behind, lengths, ending, 
                               oneway=rng.random() < 0.1, more=rng.choice([False, False, True])))
     for j in range(nsub):
         # whether the answer is a stream is the service's decision: the flag is absent, false or true
-        frames.append(sg.call("Sub", cid, tags.next(), more=mores[j] if mores else rng.choice(sg.MORE)))
+        sub_ow = (not mores) and rng.random() < 0.15
+        frames.append(sg.call("Sub", cid, tags.next(), more=mores[j] if mores else rng.choice(sg.MORE),
+                              oneway=sub_ow, upgrade=rng.choice([False, False, True, "false"]),
+                              shuffle=rng if rng.random() < 0.2 else None))
+        if sub_ow:
+            # the stream is thrown away: what is queued for it goes to the next stream of this client
+            for _ in range(nplain_behind):
+                frames.append(sg.call(rng.choice(["Echo", "Count"]), cid, tags.next(), v=3))
+            continue
         n = lengths[j]
         for i in range(n):
             # the service decides the flag: usually continues=true and false on the last item
@@ -28,7 +36,9 @@ def client(rng, tags, cid, nsub, nplain_before, nplain_behind, lengths, ending, 
         for _ in range(nplain_behind):
             frames.append(sg.call(rng.choice(["Echo", "Count", "Fail", "Ping"]), cid, tags.next(),
                                   v=rng.randrange(0, 1000), oneway=rng.random() < 0.1,
-                                  more=rng.choice([False, False, True, "false"])))
+                                  more=rng.choice([False, False, True, "false"]),
+                                  upgrade=rng.choice([False, False, False, True, "false"]),
+                                  shuffle=rng if rng.random() < 0.2 else None))
     stream = sg.wire(frames)
     if split == "one_burst":
         cuts = []
@@ -85,6 +95,42 @@ def gen_cases(ck):
                 m = sg.random_merge(rng, [[seq0[0], ["fw", 0, k]] + seq0[1:], sev0, seq1, sev1])
                 mask = rng.choice([(1 << len(m)) - 1, rng.getrandbits(len(m))])
                 add(sg.with_polls(m, mask), [1], "write_failure_at_item", {"len": n, "fail_at_write": k}, failing=[0])
+    # (f) flag combinations on the streaming call (oneway / more / upgrade absent, true, written-out false; any
+    #     member position): a oneway call answered Multi gets nothing and its stream is dropped, the
+    #     connection keeps taking calls and the calls pipelined behind it are answered in order; otherwise the
+    #     items are delivered and the calls behind are answered after the end
+    for fi, (o, m, u) in enumerate(sg.FLAG_COMBOS):
+        for burst in (True, False):
+            tags = sg.Tags()
+            order = sg.MEMBER_ORDERS[fi % len(sg.MEMBER_ORDERS)]
+            fr = [sg.call("Echo", 0, tags.next(), v=1), sg.call("Sub", 0, tags.next(), oneway=o, more=m, upgrade=u,
+                                                                 order=order if burst else None,
+                                                                 shuffle=None if burst else rng),
+                  sg.call("Count", 0, tags.next()), sg.call("Fail", 0, tags.next(), v=2, oneway=(o == "false"))]
+            arr = [["a", 0, sg.wire(fr).hex()]] if burst else [["a", 0, sg.wire([f]).hex()] for f in fr]
+            sev = [["si", 0, 31, 1], ["si", 0, 32, 2], ["se", 0]]
+            m_ = [["n", 0]] + (arr + sev if burst else sg.random_merge(rng, [arr, sev]))
+            add(sg.with_polls(m_, (1 << len(m_)) - 1), [0], "flag_combinations_stream",
+                {"oneway": o, "more": m, "upgrade": u, "one_burst": burst})
+    # (h) another client hangs up (end of stream) or gets a read error WHILE a subscription is open; the
+    #     service produces items / ends the stream only afterwards: they are delivered, the end is noticed and
+    #     the calls pipelined behind the streaming call are answered
+    for how in ("c", "fr"):
+        for other_calls in (0, 1, 2):
+            for n_items in (0, 1, 3):
+                for behind in (0, 2):
+                    tags = sg.Tags()
+                    fr0 = [sg.call("Sub", 0, tags.next(), more=rng.choice(sg.MORE))] + \
+                          [sg.call(rng.choice(["Echo", "Count"]), 0, tags.next(), v=4) for _ in range(behind)]
+                    fr1 = [sg.call("Echo", 1, tags.next(), v=5) for _ in range(other_calls)]
+                    ev = [["n", 0], ["n", 1], ["a", 0, sg.wire(fr0).hex()], ["p"]]
+                    if fr1:
+                        ev += [["a", 1, sg.wire(fr1).hex()]]
+                    ev += [[how, 1], ["p"]]
+                    for j in range(n_items):
+                        ev += [["si", 0, 40 + j, 1], ["p"]]
+                    ev += [["se", 0], ["p"], ["p"]]
+                    add(ev, [0], "hangup_during_stream", {"how": how, "items": n_items, "behind": behind})
     # (s) items of two (three) open streams become available between the same two polls of the server, with
     #     every previous stream winner (both round-robin orders): none may be consumed and thrown away; the
     #     calls pipelined behind the streaming calls are answered after the ends, which also arrive together
